@@ -311,11 +311,16 @@ DiffFields(post, ideal) == {f \in DOMAIN post : post[f] # ideal[f]}
 \* orig[a]: the balance the account had when it was loaded (what a journal roll-back restores for an account
 \* that was loaded inside the rolled-back frame: the state object stays in the StateDB)
 \* (the state object carries balance AND nonce: ncache / norig are the same for the nonce)
-Load(ms, a)  == IF a \notin DOMAIN ms.cache \/ ms.cache[a] # "-" THEN ms
+\* (an address without an account and without coins leaves no state object behind when it is only read)
+NoObject(s, a) == "exists" \in DOMAIN s /\ a \in DOMAIN s.exists /\ ~s.exists[a] /\ BigIsZero(s.bank[a])
+Load(ms, a)  == IF a \notin DOMAIN ms.cache \/ ms.cache[a] # "-" \/ NoObject(ms.s, a) THEN ms
                 ELSE [ms EXCEPT !.cache[a] = ms.s.bank[a], !.orig[a] = ms.s.bank[a], !.ncache[a] = ms.s.nonce[a], !.norig[a] = ms.s.nonce[a]]
-NTouch(ms, a, v) == LET m1 == Load(ms, a) IN
+\* writing to an address creates its state object whether or not an account exists
+ForceLoad(ms, a) == IF a \notin DOMAIN ms.cache \/ ms.cache[a] # "-" THEN ms
+                    ELSE [ms EXCEPT !.cache[a] = ms.s.bank[a], !.orig[a] = ms.s.bank[a], !.ncache[a] = ms.s.nonce[a], !.norig[a] = ms.s.nonce[a]]
+NTouch(ms, a, v) == LET m1 == ForceLoad(ms, a) IN
                     IF a \notin DOMAIN m1.cache THEN m1 ELSE [m1 EXCEPT !.ncache[a] = v, !.dirty = @ \cup {a}]
-Touch(ms, a, x) == LET m1 == Load(ms, a) IN
+Touch(ms, a, x) == LET m1 == IF BigIsZero(x) THEN Load(ms, a) ELSE ForceLoad(ms, a) IN
                    \* (stateObject.AddBalance/SubBalance return at once for a zero amount: nothing is journaled)
                    IF a \notin DOMAIN m1.cache \/ BigIsZero(x) THEN m1
                    ELSE [m1 EXCEPT !.cache[a] = BigAdd(@, x), !.dirty = @ \cup {a}]
